@@ -397,15 +397,19 @@ theorem c19_unpackBits_wf (along : C19.Along) (a : Arr Nat) (axis : Option Int) 
     (order : Option C19.Spelling) (ha : a.WF)
     (hal : ∀ x k f y, x.WF → (∀ u v, u.WF → f u = .ok v → v.WF) → along x k f = .ok y → y.WF)
     {r : Arr Nat} (h : C19.unpackBits along a axis count order = .ok r) : r.WF := by
+  -- order of the checks as of crate commit 97c65b7: bit order, axis, empty-array shortcut, arms
   unfold C19.unpackBits at h
   split at h
-  · cases h; simp [Arr.WF]
+  · cases h
+  · cases h
   · split at h
     · cases h
     · cases h
     · split at h
-      · exact c19_unpackFlatArr_wf _ _ _ ha h
-      · exact hal _ _ _ _ ha (fun u v hu huv => c19_unpackLane_wf _ _ u hu huv) h
+      · cases h; simp [Arr.WF]
+      · split at h
+        · exact c19_unpackFlatArr_wf _ _ _ ha h
+        · exact hal _ _ _ _ ha (fun u v hu huv => c19_unpackLane_wf _ _ u hu huv) h
 
 theorem c19_packBits_wf (along : C19.Along) (a : Arr Nat) (axis : Option Int)
     (order : Option C19.Spelling) (ha : a.WF)
@@ -413,13 +417,16 @@ theorem c19_packBits_wf (along : C19.Along) (a : Arr Nat) (axis : Option Int)
     {r : Arr Nat} (h : C19.packBits along a axis order = .ok r) : r.WF := by
   unfold C19.packBits at h
   split at h
-  · cases h; simp [Arr.WF]
+  · cases h
+  · cases h
   · split at h
     · cases h
     · cases h
     · split at h
-      · exact c19_packFlatArr_wf _ _ ha h
-      · exact hal _ _ _ _ ha (fun u v hu huv => c19_packLane_wf _ u hu huv) h
+      · cases h; simp [Arr.WF]
+      · split at h
+        · exact c19_packFlatArr_wf _ _ ha h
+        · exact hal _ _ _ _ ha (fun u v hu huv => c19_packLane_wf _ u hu huv) h
 
 theorem c19_unpackBits_pipe_wf (a : Arr Nat) (axis : Option Int) (count : Option Int)
     (order : Option C19.Spelling) (ha : a.WF) {r : Arr Nat}
